@@ -394,3 +394,63 @@ Proof.
 Qed.
 Lemma start_inv lk fs p : aw_inv (e_tb (start lk fs p)).
 Proof. unfold start, aw_inv. cbn [e_tb]. constructor; [cbn [fst snd]; lia | constructor]. Qed.
+
+(* ------------------------------------------------------------------ the same guards over the REMEMBERED stamp (no ghost, no history):
+   whenever the file's stamp is later than the stamp the slot remembers, every save without ! of that slot is refused *)
+Definition newer_rem (lk : links) (fs : fsys) (x : gbuf) : Prop := (mtime_of lk fs (b_path (fst x)) > b_mtime (fst x))%Z.
+Lemma bm_g_newer_rem now aw lk x fs sch :
+  newer_rem lk fs x -> b_dirty (fst x) = true -> bm_g bufs_modified now aw lk x fs sch = (true, SRefused, x, fs, sch).
+Proof.
+  unfold newer_rem, bm_g, bufs_modified. destruct x as [bf g]. cbn [fst snd]. intros N D. rewrite D. cbn [negb andb].
+  destruct aw; [|reflexivity].
+  rewrite (lbuf_save_l_newer now (b_lines bf) 0 (length (b_lines bf)) lk (b_path bf) (b_mtime bf) (b_mtime bf) fs sch (Z.le_refl _) N). reflexivity.
+Qed.
+Lemma write_g_newer_rem now isx rng lk a (x : gbuf) (rest : list gbuf) fs sch :
+  newer_rem lk fs x -> skips isx (fst x) = false -> path_of_arg (map fst (x :: rest)) a = Some (b_path (fst x)) ->
+  write_g now isx false rng lk a (x :: rest) fs sch = (SRefused, x :: rest, fs, sch).
+Proof.
+  unfold newer_rem, skips. destruct x as [b0 g0]. cbn [fst snd]. intros N SK PA. unfold write_g. rewrite SK, PA.
+  unfold ec_write_l. rewrite SK.
+  destruct (match rng with Some r0 => r0 | None => (0, length (b_lines b0)) end) as [b e].
+  rewrite Nat.eqb_refl.
+  rewrite (lbuf_save_l_newer now (b_lines b0) b e lk (b_path b0) (b_mtime b0) (b_mtime b0) fs sch (Z.le_refl _) N). reflexivity.
+Qed.
+Lemma leave_newer_rem now aw lk (x : gbuf) (rest : list gbuf) fs sch :
+  newer_rem lk fs x -> b_dirty (fst x) = true ->
+  (forall a, edit_g bufs_modified now aw false lk a (x :: rest) fs sch = (SRefused, x :: rest, fs, sch)) /\
+  (forall i, buffer_g bufs_modified now aw false lk i (x :: rest) fs sch = (SRefused, x :: rest, fs, sch)) /\
+  (forall ops, exec_g bufs_modified now aw lk ops (x :: rest) fs sch = (SRefused, x :: rest, lk, fs, sch)).
+Proof.
+  intros N D.
+  assert (L : leave0 bufs_modified now aw false lk (x :: rest) fs sch = (true, SRefused, x :: rest, fs, sch)).
+  { unfold leave0. rewrite (bm_g_newer_rem now aw lk x fs sch N D). reflexivity. }
+  split; [|split].
+  - intro a. unfold edit_g. rewrite L. reflexivity.
+  - intro i. unfold buffer_g. rewrite L. destruct (i <? _); reflexivity.
+  - intro ops. unfold exec_g. rewrite L. reflexivity.
+Qed.
+Lemma quit_scan_newer_rem now aw all lk : forall (pre : list gbuf) (x : gbuf) (rest : list gbuf) fs sch,
+  Forall (fun y : gbuf => all = false /\ b_dirty (fst y) = false) pre ->
+  newer_rem lk fs x -> (all = true \/ b_dirty (fst x) = true) ->
+  quit_scan bufs_modified now aw all false lk (pre ++ x :: rest) fs sch = (Some (length pre), SRefused, pre ++ x :: rest, fs, sch).
+Proof.
+  induction pre as [|y pre IH]; intros x rest fs sch P N D.
+  - cbn [app length quit_scan]. destruct all.
+    + unfold newer_rem in N. rewrite (lbuf_save_l_newer now _ 0 _ lk _ _ _ fs sch (Z.le_refl _) N). reflexivity.
+    + destruct D as [D|D]; [discriminate|]. rewrite (bm_g_newer_rem now aw lk x fs sch N D). reflexivity.
+  - inversion P as [|? ? [A1 A2] P2]; subst. cbn [app length quit_scan].
+    assert (E : bm_g bufs_modified now aw lk y fs sch = (false, SOk, y, fs, sch)).
+    { unfold bm_g, bufs_modified. rewrite A2. cbn [negb andb]. destruct y; reflexivity. }
+    rewrite E, (IH x rest fs sch P2 N D). reflexivity.
+Qed.
+(* a successful autowrite / loop save leaves exactly the buffer's lines in the file the path denotes *)
+Lemma bm_g_ok_exact now lk x fs sch blk st x' fs' r :
+  bm_g bufs_modified now true lk x fs sch = (blk, st, x', fs', r) -> b_dirty (fst x) = true -> blk = false ->
+  st = SOk /\ exists q, resolve lk (b_path (fst x)) = Some q /\ fs_content fs' q = Some (concat (b_lines (fst x))).
+Proof.
+  unfold bm_g, bufs_modified. destruct x as [bf g]. cbn [fst snd]. intros H D B. rewrite D in H. cbn [negb andb] in H.
+  destruct (lbuf_save_l now (b_lines bf) 0 (length (b_lines bf)) lk (b_path bf) false (b_mtime bf) fs sch) as [[st0 fs0] r0] eqn:E.
+  inversion H; subst. destruct st; try discriminate. split; [reflexivity|].
+  destruct (lbuf_save_l_ok _ _ _ _ _ _ _ _ _ _ _ _ E) as [q [R C]]. exists q. split; [exact R|].
+  rewrite C. unfold want, slice. rewrite Nat.sub_0_r, firstn_all. reflexivity.
+Qed.
